@@ -16,7 +16,7 @@ func rulesC13(p *Prog, r *Report) {
 	collMod := modConst(p, "x/collector/types")
 
 	// R13.1 ------------------------------------------------------------------------
-	r.Rule("R13.1", "locker custody movement <=> NetBalance / deposited total change, same amount; bounded release; no stale write-back", 20)
+	r.Rule("R13.1", "locker custody movement <=> NetBalance / deposited total change, same amount; bounded release; no stale write-back", 16)
 	upd := p.MustFunc("x/locker/keeper.Keeper.UpdateAmountLockerMapping")
 	delL := p.MustFunc("x/locker/keeper.Keeper.DeleteLocker")
 	getL := p.MustFunc("x/locker/keeper.Keeper.GetLocker")
